@@ -56,6 +56,7 @@ class Outer(nn.Module):
   mode: str = 'vjp'
   sel: tuple = ('params',)
   has_aux: bool = False
+  out_dtype: str = 'float32'
 
   @nn.compact
   def __call__(self, prims, ct, vtan=None):
@@ -65,6 +66,8 @@ class Outer(nn.Module):
       y = mdl(combine(ps))
       if self.mode in ('grad', 'value_and_grad'):
         y = jnp.sum(y * y)
+      # the function's output dtype need not be float32
+      y = y.astype(self.out_dtype)
       if self.has_aux:
         return y, {'aux': jnp.sum(combine(ps)) * 3.0}
       return y
@@ -129,6 +132,8 @@ def c07_case():
       'mutable': st.lists(st.sampled_from(['counters', 'batch_stats']),
                           max_size=2, unique=True),
       'empty_tangent': st.booleans(),
+      'out_dtype': st.sampled_from(['float32', 'float32', 'bfloat16',
+                                    'float16']),
       'seed': st.integers(0, 2**16),
   })
 
@@ -139,7 +144,8 @@ def c07_case():
         'running-stat state) wrapped in a module calling nn.vjp / nn.jvp / '
         'nn.grad / nn.value_and_grad x differentiated collections (params, '
         'batch_stats, both, none) x has_aux x 1-3 primal inputs (arrays, '
-        'dicts, tuples) x random cotangents/tangents x outer mutable filter; '
+        'dicts, tuples) x output dtype float32/bfloat16/float16 x random '
+        'cotangents/tangents x outer mutable filter; '
         'primal output, cotangent/tangent of every selected collection and '
         'every input equal jax.vjp/jvp/grad of the pure apply function, '
         'unselected collections are absent, forward state updates are '
@@ -160,8 +166,19 @@ def autodiff_vs_jax(case, ctx):
   sel = [c for c in case['sel'] if c in child_cols]
   mode = case['mode']
   case = dict(case, has_aux=case['has_aux'] and mode != 'jvp')
+  odt = case.get('out_dtype', 'float32')
   outer = Outer(spec=spec, dim=D, mode=mode, sel=tuple(sel),
-                has_aux=case['has_aux'])
+                has_aux=case['has_aux'], out_dtype=odt)
+  ctol = TOL if odt == 'float32' else dict(rtol=3e-2, atol=3e-2)
+
+  def close(a, b):
+    la, lb = jax.tree_util.tree_leaves(a), jax.tree_util.tree_leaves(b)
+    if len(la) != len(lb):
+      return False
+    return all(np.shape(x) == np.shape(y) and jnp.asarray(x).dtype ==
+               jnp.asarray(y).dtype and np.allclose(
+                   np.asarray(x, np.float64), np.asarray(y, np.float64),
+                   **ctol) for x, y in zip(la, lb))
   child = L.make_module(prog, D, parent=None)
   h0 = combine(prims)
   key = jax.random.key(case['seed'])
@@ -171,7 +188,7 @@ def autodiff_vs_jax(case, ctx):
   mutable = [c for c in case['mutable'] if c in child_cols]
   y_shape = jax.eval_shape(lambda: child.apply(cv, h0)).shape
   if mode == 'vjp':
-    ct = jnp.asarray(rng.normal(size=y_shape), jnp.float32)
+    ct = jnp.asarray(rng.normal(size=y_shape), odt)
     vtan = None
   elif mode == 'jvp':
     ct = jax.tree_util.tree_map(
@@ -191,7 +208,7 @@ def autodiff_vs_jax(case, ctx):
     y, upd = (r if mutable else (r, {}))
     if mode in ('grad', 'value_and_grad'):
       y = jnp.sum(y * y)
-    return y, upd
+    return y.astype(odt), upd
 
   with sut(f'outer apply ({mode})'):
     r = outer.apply(V, prims, ct, vtan, mutable=mutable if mutable else False)
@@ -253,7 +270,7 @@ def autodiff_vs_jax(case, ctx):
             f'{c} after the lifted {mode} differs from one forward pass '
             '(published once)')
   status = {c: (c in sel) for c in child_cols if c != 'counters'}
-  ctx.note(labels=[mode, 'aux' if case['has_aux'] else 'noaux',
+  ctx.note(labels=[mode, 'aux' if case['has_aux'] else 'noaux', odt,
                    f'sel:{",".join(sel) or "none"}', f'prims{len(prims)}'],
            nontrivial=len(set(status.values())) >= 2 or any(
                k != 'arr' for k in case['prims']) or case['has_aux'])
